@@ -46,7 +46,7 @@ pub fn run(ctx: &Ctx, rep: &mut Report) {
         }
         let mut rng = Rng::derive(ctx.seed, 0xC01, wi);
         rep.progress_idx(wi, "C01 world");
-        let dopts = DictOpts { loose_compounds: true, ..DictOpts::default() };
+        let dopts = DictOpts { loose_compounds: true, single_unit_splits: wi % 2 == 0, ..DictOpts::default() };
         let place = if wi % 4 == 3 { Place::Offset(1) } else { Place::Owned };
         // every third world: unusual settings of the input-text plugins (empty / longer replacement, other brackets)
         let odd_cfg = wi % 3 == 2;
@@ -168,6 +168,22 @@ pub fn run(ctx: &Ctx, rep: &mut Report) {
                                 // the generated dictionaries never declare units longer than the key (that is known finding
                                 // D9), so a panic while splitting or reading the split result breaks the surface clause
                                 Err(p) => rep.violation("split_accessor_panic", &p.site, &format!("split_into({}) of morpheme {}: {}", scen::mode_name(sm), idx, p.msg), "", scenario()),
+                            }
+                            // the older entry point (Morpheme::split: the units, or the morpheme itself when there are none)
+                            // always returns a partition of the parent's range
+                            #[allow(deprecated)]
+                            match guard(|| t.list.get(idx).split(sm).map(|l| observe(&l))) {
+                                Ok(Ok(sobs)) => {
+                                    rep.count("deprecated_splits_checked", 1);
+                                    if sobs.len() == 1 && sobs[0].word_id != o.word_id {
+                                        rep.count("single_unit_splits_seen", 1);
+                                    }
+                                    if let Some(msg) = check_partition(&text, &sobs, o.begin, o.end) {
+                                        rep.violation("partition", "Morpheme::split", &format!("Morpheme::split({}) of morpheme {} ({:?}) gives {:?}: {}", scen::mode_name(sm), idx, o.surface, sobs.iter().map(|x| (x.begin, x.end)).collect::<Vec<_>>(), msg), "", scenario());
+                                    }
+                                }
+                                Ok(Err(_)) => rep.count("split_errors", 1),
+                                Err(p) => rep.violation("split_accessor_panic", &p.site, &format!("Morpheme::split({}) of morpheme {}: {}", scen::mode_name(sm), idx, p.msg), "", scenario()),
                             }
                         }
                     }
